@@ -258,6 +258,91 @@ def run_sequence(version, op, events, second=True):
     return viol, sig
 
 
+def run_two_scans(version, order):
+    """Scan A is running (its command already answered); a second scan B is requested while A is in progress.
+    `order` is a permutation of {startB, respB, r1, r2, c1, c2}.  Each scan must return exactly the results received
+    between the moment its own command went on the wire and the first completion callback after that moment
+    (results between that completion and the call's return are optional), and must not end on a completion callback
+    that predates its own command."""
+    ctx = Ctx(version, "scan")
+    t = ctx.t
+    viol = []
+    label = f"two scans v{version} order {list(order)}"
+    try:
+        def scan():
+            return ctx.loop.create_task(ctx.ezsp.startScan(t.EzspNetworkScanType.ENERGY_SCAN, t.Channels.ALL_CHANNELS, 3))
+
+        A = scan()
+        ctx.loop.settle()
+        seqA, _ = ctx.last_request()
+        ctx.rx(ctx.frame("startScan", [ctx.status("ok")], seqA))
+        ctx.answered = seqA
+        n_sent = len(ctx.gw.sent)
+        B = None
+        seqB = None
+        issue = {"A": -1, "B": None}
+        vals = {"r1": [15, -30], "r2": [16, -31]}
+        log = []            # (index, kind, value)
+        ended = {}
+        for i, e in enumerate(order):
+            if e == "startB":
+                B = scan()
+                ctx.loop.settle()
+            elif e == "respB":
+                if seqB is None:
+                    continue    # B's command is not on the wire yet: nothing to answer
+                ctx.rx(ctx.frame("startScan", [ctx.status("ok")], seqB))
+                ctx.answered = seqB
+                log.append((i, "respB", None))
+            elif e in vals:
+                ctx.rx(ctx.frame("energyScanResultHandler", vals[e], ctx.answered, callback=True))
+                log.append((i, "result", vals[e]))
+            else:
+                ctx.rx(ctx.frame("scanCompleteHandler", [26, ctx.status("ok")], ctx.answered, callback=True))
+                log.append((i, "complete", None))
+            if seqB is None and len(ctx.gw.sent) > n_sent:
+                seqB, _ = ctx.last_request()
+                issue["B"] = i if e == "startB" else i + 0.5   # went out while this event was processed
+            for nm, task in (("A", A), ("B", B)):
+                if task is not None and task.done() and nm not in ended:
+                    ended[nm] = i
+        for nm, task in (("A", A), ("B", B)):
+            if task is None:
+                continue
+            i0 = issue[nm]
+            resp_i = -1 if nm == "A" else next((i for i, k, _ in log if k == "respB"), None)
+            comp_i = None if i0 is None else next((i for i, k, _ in log if k == "complete" and i > i0), None)
+            should_end = None if (i0 is None or resp_i is None or comp_i is None) else max(resp_i, comp_i)
+            if task.done():
+                if task.exception() is not None:
+                    viol.append(f"{label}: scan {nm} raised {type(task.exception()).__name__}")
+                    continue
+                if should_end is None:
+                    viol.append(f"{label}: scan {nm} returned although "
+                                + ("its command was never sent" if i0 is None else "no completion callback was received after its command went on the wire" if comp_i is None else "its command was never answered"))
+                    continue
+                res = [list(map(int, r)) for r in task.result()]
+                mand = [v for i, k, v in log if k == "result" and i0 < i < comp_i]
+                opt = [v for i, k, v in log if k == "result" and comp_i < i <= ended[nm]]
+                early = [v for i, k, v in log if k == "result" and i < i0]
+                if any(v in res for v in early):
+                    viol.append(f"{label}: scan {nm} returned results received before its command was issued: {res}")
+                elif res != mand and res != mand + opt:
+                    viol.append(f"{label}: scan {nm} returned {res}, expected {mand} (optionally followed by {opt})")
+            elif should_end is not None:
+                viol.append(f"{label}: scan {nm} still pending although its command was answered and a completion callback followed")
+        for task in (A, B):
+            if task is not None and not task.done():
+                task.cancel()
+        ctx.loop.settle()
+        leak = leaks(ctx)
+        if leak:
+            viol.append(f"{label}: after both scans ended {leak}")
+    finally:
+        ctx.close()
+    return viol
+
+
 def outcome(task):
     if task.cancelled():
         return ("cancelled",)
@@ -291,6 +376,13 @@ def job(args):
     sigs = set()
     n = 0
     sample = None
+    if op == "two-scans":
+        for order in itertools.permutations(["startB", "respB", "r1", "r2", "c1", "c2"]):
+            n += 1
+            for m in run_two_scans(version, order):
+                viol.append((vkey(op, m), m, {"world": "c17", "version": version, "op": op, "events": list(order)}))
+            sigs.add((op, order.index("startB"), order.index("c1") < order.index("c2")))
+        return version, op, n, sigs, viol, {"version": version, "op": op, "events": ["startB", "r1", "respB", "c1", "r2", "c2"]}
     for events in event_sets(op, tier):
         v, sig = run_sequence(version, op, list(events))
         n += 1
@@ -308,13 +400,14 @@ def vkey(op, msg):
     tail = msg.split("]: ", 1)[-1]
     tail = re.sub(r"\d+(\.\d+)?s?", "#", tail)
     tail = re.sub(r"\{[^}]*\}|\[[^\]]*\]", "", tail)
+    tail = re.sub(r"[\[\],:]+", " ", tail)
     return f"C17|{op}|" + re.sub(r"\s+", " ", tail).strip()[:90]
 
 
 def main(tier: str) -> int:
     rep = report.Report("C17", tier, "model_checking")
     versions = [4, 8, 14] if tier == "quick" else [4, 5, 6, 7, 8, 9, 13, 14]
-    jobs = [(v, op, tier) for v in versions for op in ("form", "leave", "ensure", "scan")]
+    jobs = [(v, op, tier) for v in versions for op in ("form", "leave", "ensure", "scan", "two-scans")]
     results = sorted(explore.pool().imap_unordered(job, jobs, chunksize=1), key=lambda r: (r[0], r[1]))
     total = 0
     sigs = set()
@@ -350,6 +443,11 @@ def main(tier: str) -> int:
 
 
 def replay(data) -> int:
+    if data["op"] == "two-scans":
+        v = run_two_scans(data["version"], tuple(data["events"]))
+        for m in v:
+            print("VIOLATION:", m)
+        return 1 if v else 0
     events = [tuple(e) for e in data["events"]]
     v, sig = run_sequence(data["version"], data["op"], events)
     print(sig)
